@@ -1001,7 +1001,7 @@ func NewHierarchyCase(r *rand.Rand, name string) *Case {
 	// one case in three has conditional edges INSIDE the recursion (a conditional nested membership, a
 	// conditional parent link), declared after the unconditioned form of the same restriction
 	cond := ""
-	if r.Intn(3) == 0 {
+	if r.Intn(2) == 0 {
 		cond = "c_int"
 		feat["cond-restriction"], feat["cond-tupleset"] = true, true
 	}
@@ -1106,10 +1106,10 @@ func NewHierarchyCase(r *rand.Rand, name string) *Case {
 			// links of the recursion (nested membership, folder parent) are conditional half of the time
 			if cond != "" && ((rel == "member" && strings.Contains(u, "#")) || (rel == "parent" && strings.HasPrefix(o, "folder:"))) && r.Intn(2) == 0 {
 				tk.Condition = &openfgav1.RelationshipCondition{Name: cond}
-				switch r.Intn(3) {
+				switch r.Intn(4) {
 				case 0:
 					tk.Condition.Context = mustStruct(map[string]any{"x": 3}) // holds whatever the request says
-				case 1:
+				case 1, 2:
 					tk.Condition.Context = mustStruct(map[string]any{"x": 50}) // never holds
 				}
 			}
@@ -1144,8 +1144,11 @@ func NewHierarchyCase(r *rand.Rand, name string) *Case {
 		for n := r.Intn(3); n > 0; n-- {
 			add("group:"+gs[i], "member", pick("user"))
 		}
-		if nested && i+1 < len(gs) && r.Intn(3) != 0 {
-			add("group:"+gs[i], "member", "group:"+gs[i+1+r.Intn(len(gs)-i-1)]+"#member")
+		if nested && i+1 < len(gs) && r.Intn(5) != 0 {
+			add("group:"+gs[i], "member", "group:"+gs[i+1]+"#member") // a chain g1 <- g2 <- g3 <- g4
+		}
+		if nested && i+2 < len(gs) && r.Intn(4) == 0 {
+			add("group:"+gs[i], "member", "group:"+gs[i+2+r.Intn(len(gs)-i-2)]+"#member")
 		}
 	}
 	if nested && r.Intn(6) == 0 {
